@@ -229,6 +229,9 @@ def run(tier):
                 ck.violation(f"priority|extra_instruction_rejected|{level}|{extra.name}", dict(input=srcs[2 * ci + 1], outcome=common.brief(o2), backend=backend))
             if len(ck.samples) < 3 and len(mis) >= 3:
                 ck.sample(dict(input=src, backend=backend, winners={f"{k[0]}{'/try' if k[1] else ''}->{k[2]}": sorted(markers(v[1])) for k, v in list(im.items())[:8]}))
+    if tier == "thorough":
+        from vlib import cov
+        cov.report(ck, "C05", srcs)
     return ck.finish()
 
 
